@@ -223,6 +223,12 @@ def run(chk: Check, repo: Repo) -> None:
             if call_name(call) == "int" and call.args and any(isinstance(x, ast.BinOp) and isinstance(x.op, ast.Div) for x in ast.walk(call.args[0])):
                 nonint = isinstance(res, float) and not float(res).is_integer()
                 chk.ob("scaled-value-is-rounded-not-truncated", m.site(call), not nonint, f"{c.name}: `{ast.unparse(call)}` with resolution {res}" + (" truncates toward zero: e.g. 0.29 / 0.01 = 28.999.. encodes one step low" if nonint else " (integer resolution: the quotient of two integers' floats is exact below 2**53)"), key=f"trunc|{c.name}")
+        # ... and a value is scaled to the nearest step, not the next lower one: floor division by a resolution above 1
+        # encodes 19 (x 10 ms) as 1 step = 10 - the nearest representable value is 20
+        for fd in [x for x in walk_local(m.node) if isinstance(x, ast.BinOp) and isinstance(x.op, ast.FloorDiv)]:
+            r_ = repo.fold(fd.right, m.module, c)
+            coarse = isinstance(r_, (int, float)) and not isinstance(r_, bool) and r_ > 1
+            chk.ob("scaled-value-is-rounded-not-truncated", m.site(fd), not coarse, f"{c.name}: `{ast.unparse(fd)}` with resolution {r_}" + (" rounds down to the next lower step instead of to the nearest representable value" if coarse else " (unit resolution: nothing to round)"), key=f"floor|{m.qualname}|{r_}")
     chk.count("distinct encoder bodies", len(bodies))
     chk.extra["encoder_bodies"] = bodies
     chk.rule("E1 may-raise analysis of every numeric to_knx; E8 interval abstract interpretation of the encoder body over the declared range and one step beyond, with class constants folded; truncation lint")
